@@ -1,3 +1,4 @@
+import inspect
 from typing import Generator, Any, Dict, Iterable, Iterator, TypeVar
 
 from pedantic.type_checking_logic.check_types import assert_value_matches_type, get_type_arguments, get_base_generic
@@ -26,13 +27,16 @@ class GeneratorWrapper:
         return getattr(self._generator, name)
 
     def throw(self, *args) -> Any:
+        state = inspect.getgeneratorstate(self._generator)
+
         try:
             returned_value = self._generator.throw(*args)
         except StopIteration as ex:
-            assert_value_matches_type(value=ex.value,
-                                      type_=self._return_type,
-                                      type_vars=self._type_vars,
-                                      err=self._err)
+            if state == inspect.GEN_SUSPENDED:  # the body ran: ex.value is what it returned (else: the StopIteration thrown in)
+                assert_value_matches_type(value=ex.value,
+                                          type_=self._return_type,
+                                          type_vars=self._type_vars,
+                                          err=self._err)
             raise ex
 
         assert_value_matches_type(value=returned_value,
@@ -45,6 +49,8 @@ class GeneratorWrapper:
         self._generator.close()
 
     def send(self, obj) -> Any:
+        state = inspect.getgeneratorstate(self._generator)
+
         if self._initialized:
             assert_value_matches_type(value=obj, type_=self._send_type, type_vars=self._type_vars, err=self._err)
         else:
@@ -53,10 +59,11 @@ class GeneratorWrapper:
         try:
             returned_value = self._generator.send(obj)
         except StopIteration as ex:
-            assert_value_matches_type(value=ex.value,
-                                      type_=self._return_type,
-                                      type_vars=self._type_vars,
-                                      err=self._err)
+            if state != inspect.GEN_CLOSED:  # a generator that had finished before has no result: bare StopIteration
+                assert_value_matches_type(value=ex.value,
+                                          type_=self._return_type,
+                                          type_vars=self._type_vars,
+                                          err=self._err)
             raise ex
 
         assert_value_matches_type(value=returned_value,
